@@ -25,11 +25,7 @@ func init() {
 			}
 			return 2000
 		},
-		Rule: "case kinds by index: (index) ReinitIndexes on a generated tree / after an edit history, every branch's bitset, tip counts, depth and " +
-			"tip ranks against the walk; (pairs) all pairs of branches of two presentations or two trees on the same taxa: SameBipartition <=> " +
-			"HashEquals <=> model split equality, equal => equal HashCode; (map) random AddEdgeCount/PutEdgeValue/Value/Edges sequences against a " +
-			"shadow map over capacities {1,2,3,7,8,64,100,128,1000} x load factors {.05,.5,.75,1,2,10}; (quartet) 24x24 presentations and " +
-			"Quartets() into a HashMap; non-trivial = at least one inner branch examined / one rehash happened / one resolved quartet; distinct by input",
+		Rule: "case kinds by index: (index) ReinitIndexes on a generated tree / after an edit history, every branch's bitset, tip counts, depth and tip ranks against the walk; (pairs) all pairs of branches of two presentations or two trees on the same taxa: SameBipartition <=> HashEquals <=> model split equality, equal => equal HashCode; (map) random AddEdgeCount/PutEdgeValue/Value/Edges sequences against a shadow map over capacities {1,2,3,7,8,64,100,128,1000} x load factors {.05,.5,.75,1,2,10}; (quartet) 24x24 presentations of two 4-subsets (equal, differing in one taxon, or different but engineered to collide under polynomial hashes of the sorted indexes) and Quartets() into a HashMap; non-trivial = at least one inner branch examined / one rehash happened / one resolved quartet; distinct by input",
 		Assumptions: []string{
 			"capacity >= 1 and load factor > 0 (capacity 0 cannot hold a bucket, load factor 0 doubles on every insertion)",
 			"bitset orientation: the recorded bitset must be the set of tips on one side of the branch (either side), sized to the number of tips; the two tip counts are checked per side",
